@@ -79,6 +79,11 @@ CLAIMED = {
    text="4 strategies x 4 output configurations (one / two ADA outputs, asset A, assets A+B) x 3 implicit inputs (none / not covering / covering withdrawal) x 3 pre-existing-input situations (none, foreign, one that is also offered) x every offered subset of size <= 6 (thorough: all 128) of a 7-entry table (two equal ADA values, large, small, asset A, asset B, A+B) x offered order as listed / reversed x EVERY sequence of random answers (selection picks, improvement swaps, fee top-up). On Ok: inputs read back from the built body are distinct members of pre-existing + offered, pre-existing ones untouched, get_explicit_input equals the table sum, and table values + implicit input >= get_total_output + min_fee in lovelace and each asset; LargestFirst: top-k by coin, minimal (dropping its smallest pick uncovers), insufficiency only if everything offered does not suffice.",
    note="Hook: RNG seam (verif_hooks::ChoiceRng). The right side of the coverage inequality uses the builder's min_fee/get_total_output (their correctness is C06/C05).",
    design="DESIGN.md §3 C08"),
+ "C19": dict(
+   technique="bounded-exhaustive enumeration (E1): full product of collateral input sets x helper entry points x boundary arguments x both call orders on the real builder; the body fields 13/16/17 are re-parsed and judged as an equation on whole values",
+   text="Collateral input sets of size 1..3 over 5 candidates (ADA at three widths, ADA + asset A, ADA + A + B) x set_collateral_return_and_total with 9 return coins (around the return's own min-ADA, around the input total, 0, 2^16) x 6 asset choices (exactly the inputs' assets, fewer, more, a different asset, none, partial) and set_total_collateral_and_return with 9 totals (0, 1, around inputs - min-ADA, = inputs, > inputs, 2^16, 2^32) x coins_per_byte {4310, 1} x both orders of collateral vs balancing; the percentage helper over collateral sets x percentages {0, 1, 99, 100, 150, 2^32, 2^64-1} x 3 output sizes x 2 strategies (RNG answers all explored). Oracle on the parsed body: table values of body[13] == value(body[16]) + body[17] for lovelace and every asset, return >= coins_per_byte*(160+size), total >= ceil(fee*pct/100), and after an Err neither field is set.",
+   note="Trusted: notes/ledger_rules.md §7, refcbor. Raw pass-through setters excluded by the reading in DESIGN.",
+   design="DESIGN.md §3 C19"),
 }
 
 PENDING_REASON = "check not built yet in this session (work in progress; see DESIGN.md §8 construction order)"
